@@ -96,7 +96,7 @@ def step (n : Nat) (P : Nat → List Nat) (push : Nat → Bool) (s : St) : Optio
   | [], x :: q' => some (relaxAll push { s with q := q', ranked := s.ranked ++ [x] } (consumersOf n P x))
   | [], [] => none
 
-/-- the `while` loop; the fuel is never the reason it stops (`Lemmas.Rank.loop_exhausts`) -/
+/-- the `while` loop; the fuel is never the reason it stops (`loop_queues_empty`, `loop_exhausts`) -/
 def loop (n : Nat) (P : Nat → List Nat) (push : Nat → Bool) : Nat → St → St
   | 0, s => s
   | f + 1, s =>
